@@ -14,7 +14,7 @@ CHECK_MODULE = "Check.C12Check"
 IMPORTS = ["Model.Objects", "Model.PodSpec", "Model.Backoff", "Model.ErsReconcile", "Model.EdsReconcile", "Check.World"]
 RULE = ("stores holding two or three ExtendedDaemonSets - same name in another namespace, another name in the same namespace, another "
         "name elsewhere - each with its own replica sets and pods (same or different templates), plus unrelated pods and DaemonSets "
-        "with overlapping labels and a declared migration; real Reconciles of every ExtendedDaemonSet and of every replica set of both "
+        "with overlapping labels and a declared migration (in a third of the replica-set stores: pods of the old DaemonSet and look-alikes owned by a same-named workload of another kind, by another DaemonSet, by nobody); real Reconciles of every ExtendedDaemonSet and of every replica set of both "
         "namespaces, interleaved, through rollouts and canaries (single stores and histories). Every object passed to Create, "
         "Update, Patch, Delete is judged. Non-trivial = the step wrote something while a second ExtendedDaemonSet existed.")
 ASSUMPTIONS = [
@@ -118,7 +118,8 @@ def two_worlds(rng, stats, gen):
 def generate(rng, tier, stats):
     out = []
     for _ in range(110 if tier == "quick" else 1800):
-        out.append(two_worlds(rng, stats, lambda: worldgen.gen_ers_world(rng, None, {"open_gates": rng.random() < 0.8, "no_faults": True})))
+        out.append(two_worlds(rng, stats, lambda: worldgen.gen_ers_world(rng, stats, {"open_gates": rng.random() < 0.8, "no_faults": True,
+                                                                                   "old_ds": rng.random() < 0.35})))
     for _ in range(90 if tier == "quick" else 1500):
         out.append(two_worlds(rng, stats, lambda: worldgen.gen_eds_world(rng, None, {"no_faults": True})))
     for _ in range(12 if tier == "quick" else 200):
